@@ -144,6 +144,11 @@ def records(rnd, thorough):
     for n in (1, 7, 64):
         by = [rnd.randint(0, 255) for _ in range(n)]
         rec('popcount', lambda by=by: dict(got=int(kyupy.popcount(np.array(by, dtype=np.uint8)))), vals=by)
+    # scale: more than 2^16 one bits in a single array, and a 2-D array (counts beyond the range of narrow accumulators)
+    by = [255] * 8192 + [rnd.randint(0, 255) for _ in range(rnd.randint(100, 900))]
+    rec('popcount', lambda by=by: dict(got=int(kyupy.popcount(np.array(by, dtype=np.uint8)))), vals=by)
+    by = [rnd.choice([255, 255, 254, 127, rnd.randint(0, 255)]) for _ in range(9600)]
+    rec('popcount', lambda by=by: dict(got=int(kyupy.popcount(np.array(by, dtype=np.uint8).reshape(96, 100)))), vals=by)
     return recs
 
 
